@@ -97,11 +97,32 @@ func doObs(g0 int) {
 		}
 		ctxerr[n] = st
 	}
+	// scope objects that were announced by a CreateScope (hook K_addChild / K_track) but never returned to the
+	// caller: the creation was refused or abandoned, so their derived contexts must have been cancelled
+	orphans := append([]string{}, R.orphans...)
+	R.orphans = nil
+	for s := range R.pendingNames {
+		if _, named := R.names[s]; named {
+			continue
+		}
+		st := "live"
+		if c := s.Context(); c != nil && c.Err() != nil {
+			st = "canceled"
+		}
+		orphans = append(orphans, st)
+	}
+	R.pendingNames = map[godi.Scope]string{}
 	openNonRoot := 0
 	for n, s := range R.scopes {
 		if live.closed[n] {
 			delete(R.names, s)
 			delete(R.scopes, n)
+			// a cancel function is a reference to its context, and a context derived from a scope's context
+			// keeps that scope reachable: the harness lets go of those of closed scopes as well
+			if c := R.cancels[n]; c != nil {
+				c()
+				delete(R.cancels, n)
+			}
 		} else if n != "root" {
 			openNonRoot++
 		}
@@ -150,6 +171,6 @@ func doObs(g0 int) {
 		buf = buf[:runtime.Stack(buf, true)]
 		os.Stderr.Write(buf)
 	}
-	emit(M{"ev": "obs", "goroutines": n - g0, "alive_scopes": aliveScopes, "alive_insts": aliveInsts, "ctx": ctxerr, "known": names})
+	emit(M{"ev": "obs", "goroutines": n - g0, "alive_scopes": aliveScopes, "alive_insts": aliveInsts, "ctx": ctxerr, "known": names, "orphans": orphans})
 	R.cur = nil
 }
